@@ -510,6 +510,10 @@ class Phase(Angle):
         if string.dtype.kind not in "SU":
             raise ValueError("require string input.")
         count, frac = _parse_strings(string)
+        if not (np.any(count.imag) or np.any(frac.imag)):
+            # A real string must give a real phase (a complex zero would
+            # otherwise be taken to be imaginary).
+            count, frac = count.real, frac.real
         return cls(count, frac)
 
     @property
